@@ -45,8 +45,14 @@ def safe_run(prop, plan):
     """prop.run(plan); an exception that escapes from inside the library under test at a place where
     the harness did not expect one is a VIOLATION (the operation must not raise), not a harness
     error.  Exceptions from harness code propagate."""
+    from .knobs import KNOBS
+
+    applied = KNOBS.apply(plan.get("run_seed", 0))
     try:
-        return prop.run(plan)
+        res = prop.run(plan)
+        for k, v in applied.items():
+            core.bump(res["probes"], f"knob:{k.rsplit('.', 1)[-1]}:" + ("lowered" if v <= 20011 else "shipped"))
+        return res
     except core.HarnessError:
         raise
     except Exception as e:
@@ -60,6 +66,8 @@ def safe_run(prop, plan):
             f"succeed)", f"library_raised_unexpectedly:{type(e).__name__}:{where}"))
         res["digest"] = "raised:" + core.plan_digest(plan)
         return res
+    finally:
+        KNOBS.restore()
 
 
 def run_one(prop, tier: str, master: int, i: int, keep_plan=False):
@@ -294,9 +302,19 @@ def write_replay(pid, plan, violation, digest, meta):
     name = re.sub(r"[^A-Za-z0-9_.\-]", "_", name)
     path = os.path.join(d, name)
     with open(path, "w") as f:
+        from .knobs import KNOBS
+
         json.dump({"property": pid, "plan": plan, "violation": violation, "digest": digest,
+                   "tuning_knobs_in_this_run": KNOBS.values_for(plan.get("run_seed", 0)),
                    **meta}, f, indent=1, sort_keys=True, default=core._jd)
     return path
+
+
+def _knobs_found():
+    from .knobs import discover
+
+    return [f"{m}.{n}={v}" for m, n, v in discover()] or [
+        "(none: no module-level size/chunk/buffer constants in the tree; knob randomisation idle)"]
 
 
 def write_evidence(prop, tier, master, total, n_viol, known_seen, extra=None):
@@ -328,6 +346,7 @@ def write_evidence(prop, tier, master, total, n_viol, known_seen, extra=None):
                   "derivation": "blake2b(master, property, tier, index)"},
         "repo": core.REPO,
         "jobs": total.get("jobs"),
+        "tuning_knobs_found": _knobs_found(),
     }
     if extra:
         cov.update(extra)
